@@ -31,7 +31,8 @@ theorem sample_some (t : Trace) (l : List Int) (h : ValidIdx t l) :
       lookup := some (dedup l),
       timestamps := dedup (l.map (fun i => t.allTimestamps[i.toNat]?.getD 0)),
       index := 0,
-      maxIndex := ((dedup (l.map (fun i => t.allTimestamps[i.toNat]?.getD 0))).length : Int) - 1 } := by
+      maxIndex := ((dedup (l.map (fun i => t.allTimestamps[i.toNat]?.getD 0))).length : Int) - 1,
+      virt := t.virt.map (fun v => { v with cache := [] }) } := by
   simp [Trace.setSamplingPoints, mapM_valid t l h]
 
 /-- **INDEX is 0 after resampling** -/
@@ -133,7 +134,8 @@ theorem resample_refers_to_original (t t1 : Trace) (l1 l2 : List Int) (h1 : t.se
   split at h1
   · simp at h1
   · simp only [Option.some.injEq] at h1; subst h1
-    simp only [Trace.setSamplingPoints]
+    simp only [Trace.setSamplingPoints, List.map_map]
+    rfl
 
 /-- **trim-trace only lowers MAX-INDEX to min(m, MAX-INDEX) and leaves every value unchanged** -/
 theorem trim_spec (t : Trace) (m : Int) :
